@@ -1,0 +1,82 @@
+//go:build verif
+
+package requestf
+
+// Contracts for the deductive verifier in /verif (govc); comments only.
+// RequestPacket and ResponsePacket are the two structs decoded from every packet
+// received from the network (property C05) and encoded on every call (C03).
+//
+//@ pred validR(b) = b != nil && b.buf != nil && b.ref == b.buf.src && b.buf.i >= 0 && allocated(b.ref)
+//@ pred validB(b) = b != nil && b.buf != nil
+//
+// ------------------------------------------------------------------ RequestPacket
+//
+//@ func (*RequestPacket).ResetDefault
+//@   requires st != nil
+//@   modifies st.CPacketType, st.IMessageType, st.SServantName, st.SFuncName, st.ITimeout
+//@   ensures [C04] st.CPacketType == 0 && st.IMessageType == 0 && len(st.SServantName) == 0 && len(st.SFuncName) == 0 && st.ITimeout == 0
+//@   safety [C05]
+//
+//@ func (*RequestPacket).ReadFrom
+//@   requires st != nil && validR(readBuf)
+//@   let src = readBuf.buf.src
+//@   let p0 = readBuf.buf.i
+//@   let allocbudget = len(readBuf.buf.src)
+//@   witness src = readBuf.buf.src
+//@   witness i = readBuf.buf.i
+//@   modifies *st, readBuf.buf.i
+//@   allocates
+//@   ensures [C04,C05,C06] readBuf.buf.i >= p0
+//@   ensures [C05] validR(readBuf)
+//@   loop 0 invariant [C05] validR(readBuf) && readBuf.buf.i >= p0 && i0 >= 0 && len(st.SBuffer) == e0
+//@   loop 0 decreases e0 - i0
+//@   loop 1 invariant [C05] validR(readBuf) && readBuf.buf.i >= p0 && st.Context != nil
+//@   loop 1 decreases e1 - i1
+//@   loop 2 invariant [C05] validR(readBuf) && readBuf.buf.i >= p0 && st.Status != nil
+//@   loop 2 decreases e2 - i2
+//@   safety [C05]
+//
+//@ func (*RequestPacket).ReadBlock
+//@   requires st != nil && validR(readBuf)
+//@   let p0 = readBuf.buf.i
+//@   let allocbudget = len(readBuf.buf.src)
+//@   modifies *st, readBuf.buf.i
+//@   allocates
+//@   ensures [C04,C05,C06] readBuf.buf.i >= p0
+//@   safety [C05]
+//
+// ------------------------------------------------------------------ ResponsePacket
+//
+//@ func (*ResponsePacket).ResetDefault
+//@   requires st != nil
+//@   modifies st.CPacketType, st.IMessageType, st.IRet
+//@   ensures [C04] st.CPacketType == 0 && st.IMessageType == 0 && st.IRet == 0
+//@   safety [C05]
+//
+//@ func (*ResponsePacket).ReadFrom
+//@   requires st != nil && validR(readBuf)
+//@   let src = readBuf.buf.src
+//@   let p0 = readBuf.buf.i
+//@   let allocbudget = len(readBuf.buf.src)
+//@   witness src = readBuf.buf.src
+//@   witness i = readBuf.buf.i
+//@   modifies *st, readBuf.buf.i
+//@   allocates
+//@   ensures [C04,C05,C06] readBuf.buf.i >= p0
+//@   ensures [C05] validR(readBuf)
+//@   loop 0 invariant [C05] validR(readBuf) && readBuf.buf.i >= p0 && i0 >= 0 && len(st.SBuffer) == e0
+//@   loop 0 decreases e0 - i0
+//@   loop 1 invariant [C05] validR(readBuf) && readBuf.buf.i >= p0 && st.Status != nil
+//@   loop 1 decreases e1 - i1
+//@   loop 2 invariant [C05] validR(readBuf) && readBuf.buf.i >= p0 && st.Context != nil
+//@   loop 2 decreases e2 - i2
+//@   safety [C05]
+//
+//@ func (*ResponsePacket).ReadBlock
+//@   requires st != nil && validR(readBuf)
+//@   let p0 = readBuf.buf.i
+//@   let allocbudget = len(readBuf.buf.src)
+//@   modifies *st, readBuf.buf.i
+//@   allocates
+//@   ensures [C04,C05,C06] readBuf.buf.i >= p0
+//@   safety [C05]
